@@ -45,6 +45,10 @@ CLAIMED = {
             "and point count (ego frame, or map frame with an exact-rotation ego pose and symbolic translation) under symbolic "
             "per-label bounds of every kind; z3 decides kept <=> specification predicate, idempotence, order preservation "
             "and monotonicity under widening on every path."),
+    "C03": ("4 C03", "The real matching + PerceptionFrameResult.evaluate_frame + PassFailResult pipeline is executed on scenes of "
+            "<=2x2 objects with symbolic ego-relative positions, symbolic critical bounds and pass/fail thresholds, in the ego "
+            "frame and in the map frame under an exact-rotation ego pose with symbolic translation; z3 decides the counting "
+            "identities, the critical-region oracle and the TP rule on every path."),
 }
 NA = {
     "C16": "dataset loading goes through the nuScenes devkit and file I/O; a symbolic stand-in for the devkit would be the "
